@@ -38,7 +38,11 @@ class Cell:
         return self.__str__()
 
     def __hash__(self):
-        return hash(frozenset([self.uid, self.value]))
+        try:
+            return hash(frozenset([self.uid, self.value]))
+        except TypeError:
+            # a value that cannot be hashed (the blank of a generated class, read with get_cell and written back): the address alone
+            return hash(self.uid)
 
     def to_dict(self) -> dict:
         return {'uid': self.uid, 'title': self.title, 'column': self.column, 'row': self.row, 'value': self.value}
